@@ -288,7 +288,8 @@ def run(p, led, tier):
     # ---------------- R6 after an admitted probe the breaker is never left half-open and refusing
     led.rule("C08-R6", "whatever the outcome of an admitted probe (success, intentional block, executor failure, agent exception, cache hit), the next request is consulted unless the breaker is OPEN again", 1)
     runm_ = p.find_method(L, "run")
-    kinds = {"success": ("EXECUTE", "PERMIT"), "intentional block": ("BLOCK", "BLOCK"), "executor failure": ("FAILURE", "PERMIT"), "agent exception": (EXC, "PERMIT"), "cache hit": ("EXECUTE", "PERMIT")}
+    kinds = {"success": ("EXECUTE", "PERMIT"), "intentional block": ("BLOCK", "BLOCK"), "executor failure": ("FAILURE", "PERMIT"), "agent exception": (EXC, "PERMIT"), "cache hit": ("EXECUTE", "PERMIT"),
+             "retry of the prompt that was refused while open": ("EXECUTE", "PERMIT")}
     bad6, n6 = [], 0
     for kind, verdicts in kinds.items():
         for g in G:
@@ -299,7 +300,7 @@ def run(p, led, tier):
                     it.call_fi(runm_, [obj, p1], {})          # leaves a cached reply for prompt_one
                 obj.fields[h.names.state] = it.enum_member(h.cstate, "OPEN")
                 out = []
-                for pr in (p1, p2):
+                for pr in ((p1, p1) if _kind.startswith("retry") else (p1, p2)):
                     mark = len(it.events)
                     try:
                         r = it.call_fi(runm_, [obj, pr], {})
@@ -315,6 +316,12 @@ def run(p, led, tier):
                 raise AnchorError(f"probe history could not be interpreted: {e}")
             for first, second in paths6:
                 n6 += 1
+                if kind.startswith("retry"):
+                    # refused while open (nothing consulted); the same prompt again once the timeout has passed is admitted as the
+                    # probe — it must reach the agents, not be answered with the refusal remembered from before
+                    if first["refused"] and not first["consulted"] and second["state"] != "OPEN" and second["refused"] and not second["consulted"]:
+                        bad6.append(f"gate {g}: a prompt refused while the breaker was open is answered {second['reason']} again after the recovery timeout (breaker {second['state']}) without consulting the agents: the refusal itself was cached")
+                    continue
                 admitted = first["consulted"] or first["cached"]
                 if not admitted:
                     continue          # still inside the recovery timeout: nothing is promised
